@@ -11,11 +11,11 @@ import (
 
 func TestC01(t *testing.T) {
 	nrun.Main(t, &nrun.Check{
-		ID: "C01", TestName: "TestC01", Plans: pscen.Plans(),
+		ID: "C01", TestName: "TestC01", Plans: append(pscen.Plans(), pscen.GenPlans()...),
 		QuickTime: 75 * time.Second, ThorTime: 18 * time.Minute,
 		// the buffered/unbuffered hook pairing rides on these scenarios but is C14's subject
 		Keep: func(_, key string) bool { return !strings.HasPrefix(key, "hook-") },
-		Rule: "engine N: every order of application calls, request/response frame deliveries, timer ticks and injected faults (connection kill before/after handling, NOT_LEADER, UNKNOWN_TOPIC, MESSAGE_TOO_LARGE, REQUEST_TIMED_OUT after append, stalled request) within k deviations of the default order, for five producer scenarios (Flush, AbortBufferedRecords, PurgeTopicsFromClient, context cancel, Close as the concurrent disruptor); distinct = distinct terminal outcomes (per-record promise result classes) per scenario",
+		Rule: "engine N: every order of application calls, request/response frame deliveries, timer ticks and injected faults (connection kill before/after handling, NOT_LEADER, UNKNOWN_TOPIC, MESSAGE_TOO_LARGE, REQUEST_TIMED_OUT after append, stalled request) within k deviations of the default order, for six hand-written producer scenarios (Flush, AbortBufferedRecords, PurgeTopicsFromClient, context cancel, Close as the concurrent disruptor; a slow old leader), plus the generated family PG: every combination of 5 producer configurations (idempotent, idempotent+linger, acks=1 non-idempotent, acks=0, MaxBufferedRecords(2)) x producing script (three calls over Produce t/0, Produce t/1 with a cancellable context, Produce to an unknown topic, TryProduce, ProduceSync: 5 representatives quick, all 125 thorough) x disrupting script (up to two calls over Flush, AbortBufferedRecords, PurgeTopicsFromClient, cancel, Close-last: 26) x 4 start positions of the disruptor, on the default schedule (thorough: plus every single deviation, time-capped); distinct = distinct terminal outcomes (per-record promise result classes) per scenario",
 		Assume: []string{"kfake is the broker", "synctests build of xsync (C31 covers the channel mutexes)", "goroutine micro-interleavings inside one event are the Go runtime's (C30/C03 engine-S harnesses cover the preemption level)"},
 	})
 }
